@@ -5,7 +5,7 @@
    S_of K = sc * (floor(K*d/n) / sc); file_start f = ceil(f*n/(1000*d)). *)
 From Coq Require Import ZArith String List.
 From DRF Require Import Base.U64 Base.DivLemmas Base.Dec Base.Civil Gen.LayoutGen
-  Proofs.TimeConvProofs Proofs.LayoutProofs.
+  Model.LayoutSpec Proofs.TimeConvProofs Proofs.LayoutProofs.
 Import ListNotations.
 Local Open Scope Z_scope.
 
